@@ -39,9 +39,13 @@ func runOnce(t *testing.T, seed uint64, strat Strategy) (string, *Outcome) {
 					for k := 0; k < 4; k++ {
 						switch c0 := RecvCase(ch); Select(5, false, c0, RecvCase(time.After(2*time.Second))) {
 						case 0:
+							mu.Lock()
 							trace = append(trace, fmt.Sprintf("recv%d@%v", c0.Val(), Elapsed()))
+							mu.Unlock()
 						case 1:
+							mu.Lock()
 							trace = append(trace, fmt.Sprintf("tmo@%v", Elapsed()))
+							mu.Unlock()
 							k--
 						}
 					}
@@ -50,7 +54,9 @@ func runOnce(t *testing.T, seed uint64, strat Strategy) (string, *Outcome) {
 				wg.Wait()
 				Recv1(6, done)
 				m := map[string]int{"a": 1, "b": 2, "c": 3, "d": 4}
+				mu.Lock()
 				trace = append(trace, fmt.Sprint(MapKeys(7, m)))
+				mu.Unlock()
 				// leave a goroutine blocked forever
 				Go(8, func() { Recv1(9, make(chan int)) })
 				Yield(10)
